@@ -9,4 +9,8 @@ import PycsepVerif.SourceSM.C12
 import PycsepVerif.SourceSM.C04
 import PycsepVerif.SourceSM.C17
 import PycsepVerif.SourceSM.C01
+import PycsepVerif.Source.C01
+import PycsepVerif.Source.C09
+import PycsepVerif.Source.C10
+import PycsepVerif.Source.C17
 -- REGISTER-SRC (one `import PycsepVerif.Source.Cxx` line per property with a source tie, above this line)
